@@ -612,6 +612,11 @@ def _stored_flags(kind):
     return unit
 
 
-UNITS = [("stored-flags:box", _stored_flags("box")), ("stored-flags:discrete", _stored_flags("discrete")), ("dqn-loss", unit_dqn_loss), ("dqn-grad", unit_dqn_grad), ("call-sites", unit_call_sites), ("sac:autotune", unit_sac(True)), ("sac:fixed-alpha", unit_sac(False)),
+def _ctor_unit():
+    from contracts import _ctor
+    return _ctor.unit_constructor([(DQN, {}, ("gamma",)), (SAC, {}, ("gamma", "initial_alpha"))])
+
+
+UNITS = [("constructor", _ctor_unit()), ("stored-flags:box", _stored_flags("box")), ("stored-flags:discrete", _stored_flags("discrete")), ("dqn-loss", unit_dqn_loss), ("dqn-grad", unit_dqn_grad), ("call-sites", unit_call_sites), ("sac:autotune", unit_sac(True)), ("sac:fixed-alpha", unit_sac(False)),
          ("sac:autotune:B2", unit_sac(True, 2)), ("sac:fixed-alpha:B4", unit_sac(False, 4))]
 THOROUGH_ONLY = {"sac:autotune:B2", "sac:fixed-alpha:B4"}
